@@ -75,6 +75,77 @@ def t_explore():
     assert st['executions'] >= 6
 
 
-for t in (t_alltoall, t_cart, t_mismatch_and_deadlock, t_explore):
+def t_allgather_complex_as_double():
+    # pygyro sends complex blocks as (buf, MPI.DOUBLE): counts are in doubles, data must arrive bit-exact
+    def fn(r):
+        c = MPI.COMM_WORLD
+        s = (np.arange(3) + 10 * r) * (1 + 2j)
+        d = np.zeros(9, dtype=complex)
+        c.Allgather((s, MPI.DOUBLE), (d, MPI.DOUBLE))
+        return d
+    res = simmpi.World(3).run(fn)
+    want = np.concatenate([(np.arange(3) + 10 * r) * (1 + 2j) for r in range(3)])
+    assert all(np.array_equal(x, want) for x in res)
+
+
+def t_counts():
+    def fn(r):
+        c = MPI.COMM_WORLD
+        s = np.zeros(4 if r == 0 else 6)
+        d = np.zeros(4 if r == 0 else 6)
+        c.Alltoall(s, d)
+    try:
+        simmpi.World(2).run(fn)
+        raise SystemExit('Alltoall count mismatch not detected')
+    except simmpi.CollectiveMismatch:
+        pass
+
+    def fn2(r):
+        MPI.COMM_WORLD.bcast(r, root=r)
+    try:
+        simmpi.World(2).run(fn2)
+        raise SystemExit('root mismatch not detected')
+    except simmpi.CollectiveMismatch:
+        pass
+
+
+def t_reduce_gatherv_split():
+    def fn(r):
+        c = MPI.COMM_WORLD
+        out = np.zeros(2)
+        c.Reduce(np.array([1.0 * r, 2.0]), out, op=MPI.MAX, root=1)
+        sub = c.Split(r % 2, -r)                       # keys reversed: higher world rank gets sub-rank 0
+        mine = np.full(r + 1, float(r))
+        if c.Get_rank() == 2:
+            buf = np.full(6, -1.0)
+            c.Gatherv(mine, (buf, [1, 2, 3], np.array([0, 1, 3]), MPI.DOUBLE), 2)
+        else:
+            buf = None
+            c.Gatherv(mine, mine, 2)
+        return out.tolist(), sub.Get_rank(), sub.Get_size(), None if buf is None else buf.tolist()
+    res = simmpi.World(3).run(fn)
+    assert res[1][0] == [2.0, 2.0] and res[0][0] == [0.0, 0.0]
+    assert (res[0][1], res[0][2]) == (1, 2) and (res[2][1], res[2][2]) == (0, 2) and (res[1][1], res[1][2]) == (0, 1)
+    assert res[2][3] == [0.0, 1.0, 1.0, 2.0, 2.0, 2.0]
+
+
+def t_mode_n_runs_ahead():
+    # in mode N a non-root rank of a gather does not wait: it can finish before the root arrives
+    order = []
+
+    def fn(r):
+        c = MPI.COMM_WORLD
+        if r == 1:
+            order.append('root-start')
+        c.gather(r, root=1)
+        order.append('done%d' % r)
+    simmpi.World(2, mode='N').run(fn)
+    assert order.index('done0') < order.index('root-start'), order
+    order.clear()
+    simmpi.World(2, mode='S').run(fn)
+    assert order.index('done0') > order.index('root-start'), order
+
+
+for t in (t_alltoall, t_cart, t_mismatch_and_deadlock, t_explore, t_allgather_complex_as_double, t_counts, t_reduce_gatherv_split, t_mode_n_runs_ahead):
     t()
 print('selftest ok')
